@@ -234,6 +234,8 @@ func C12(tier rt.Tier) int {
 	// live entries of weight 0 beside weighted ones (a non-empty trie of TOTAL weight 0 is left out: the library's
 	// own idiom takes weight 0 for "empty", see C10)
 	cs = append(cs, content{[]int{0, 1}, []string{"z", "a"}}, content{[]int{0, 5}, []string{"a", "z"}}, content{[]int{0, 1, 2}, []string{"z", "z", "a"}}, content{[]int{0, 2, 5}, []string{"z", "a", "z"}})
+	// the same content (value and weight) under several keys: one stored value record shared by them
+	cs = append(cs, content{[]int{0, 1}, []string{"A", "A"}}, content{[]int{0, 5}, []string{"A", "A"}}, content{[]int{0, 1, 5}, []string{"A", "A", "A"}}, content{[]int{0, 2}, []string{"B", "B"}})
 	// (A) small contents: every subset of the six keys as request, every follow-up sequence
 	budgetA := 6 * time.Minute
 	if tier == rt.Thorough {
